@@ -28,9 +28,20 @@ for name in sorted(os.listdir(os.path.join(V, "seeded"))):
         cross += 1 if det else 0
         col = "— ; caught by " + ", ".join(det) if det else "**missed**"
     rows.append((name, m.get("summary", ""), m.get("needs_to_manifest", ""), col))
-print("| id | change | needs to manifest | detected by (quick tier) |")
-print("|---|---|---|---|")
+import sys
+lines = ["| id | change | needs to manifest | detected by (quick tier) |", "|---|---|---|---|"]
 for r in rows:
-    print("| %s | %s | %s | %s |" % r)
-print()
-print("%d changes; %d detected by the check of the property they were written against, %d only by the check of another property." % (len(rows), own, cross))
+    lines.append("| %s | %s | %s | %s |" % r)
+lines.append("")
+lines.append("%d changes; %d detected by the check of the property they were written against, %d only by the check of another property, %d by none."
+             % (len(rows), own, cross, len(rows) - own - cross))
+text = "\n".join(lines)
+if "--design" in sys.argv:
+    # refresh the marked region of DESIGN.md
+    dp = os.path.join(V, "DESIGN.md")
+    d = open(dp).read()
+    b, e = "<!-- seeded-table:begin -->", "<!-- seeded-table:end -->"
+    i, j = d.index(b) + len(b), d.index(e)
+    open(dp, "w").write(d[:i] + "\n" + text + "\n" + d[j:])
+else:
+    print(text)
